@@ -125,6 +125,8 @@ theorem pickInv_iff_clauses (s : State) : PickInv s ↔ ∀ c ∈ clauses s, c.2
     obtain ⟨h1, h2, h3, h4, h5, h6, h7, h8, h9, h10, h11, h12, h13, h14, h15⟩ := h
     exact ⟨h1, h2, h3, h4, h5, h6, h7, h8, h9, h10, h11, h12, h13, h14, h15⟩
 
+instance (s : State) : Decidable (PickInv s) := decidable_of_iff _ (pickInv_iff_clauses s).symm
+
 /-- A pick `(i, allowedFast)` for peer `p` made in state `s` is safe. -/
 def PickSafe (s : State) (p i : Nat) : Prop :=
   i < s.n ∧ (s.pieces i).done = false ∧ (s.pieces i).writing = false ∧ p ∈ (s.pieces i).having ∧
